@@ -1,6 +1,9 @@
 package packet
 
-import "github.com/Comcast/gots/v2/zzverif/vrt"
+import (
+	"github.com/Comcast/gots/v2"
+	"github.com/Comcast/gots/v2/zzverif/vrt"
+)
 
 // end to end: PCR/OPCR set on an adaptation field are read back unchanged, for every
 // content of the rest of the packet (adaptation_field_length and all other flags symbolic).
@@ -19,5 +22,88 @@ func VH_C04_AFEndToEnd() {
 	vrt.Assert(err == nil && g == pcr, "PCR set on an adaptation field is read back unchanged")
 	o, err := af.OPCR()
 	vrt.Assert(err == nil && o == opcr, "OPCR set on an adaptation field is read back unchanged")
+	vrt.Reach("end")
+}
+
+// end to end through the presence setters: PCR and OPCR are added to a field that has neither,
+// in either order and with the values written before or after the other flag is raised; both
+// must read back unchanged and sit at the ISO positions (PCR bytes 6..11, OPCR the 6 bytes after).
+func VH_C04_AFSetSequence() {
+	order := vrt.Choose("order", 0, 3)
+	rest := vrt.Choose("rest", 0, 2) // what follows the OPCR: nothing / splice countdown / splice + 2 private bytes
+	presence := []byte{0, 0x04, 0x06}[rest]
+	p, m := c03wfShape("p", presence, 2, 0)
+	vrt.Assume(5+m.L-m.end >= 12) // room for both fields
+	pcr, opcr := vrt.Uint64("pcr"), vrt.Uint64("opcr")
+	lim := (uint64(1) << 33) * 300
+	vrt.Assume(pcr < lim && opcr < lim)
+	orig := p
+	af, err := p.AdaptationField()
+	vrt.Assert(err == nil && af != nil, "adaptation field present")
+	ok := true
+	step := func(e error) {
+		if e != nil {
+			ok = false
+		}
+	}
+	switch order {
+	case 0: // PCR completely, then OPCR
+		step(af.SetHasPCR(true))
+		step(af.SetPCR(pcr))
+		step(af.SetHasOPCR(true))
+		step(af.SetOPCR(opcr))
+	case 1: // OPCR completely, then PCR (the OPCR must move behind the new PCR)
+		step(af.SetHasOPCR(true))
+		step(af.SetOPCR(opcr))
+		step(af.SetHasPCR(true))
+		step(af.SetPCR(pcr))
+	case 2: // both flags, then both values
+		step(af.SetHasPCR(true))
+		step(af.SetHasOPCR(true))
+		step(af.SetOPCR(opcr))
+		step(af.SetPCR(pcr))
+	case 3:
+		step(af.SetHasOPCR(true))
+		step(af.SetHasPCR(true))
+		step(af.SetPCR(pcr))
+		step(af.SetOPCR(opcr))
+	}
+	vrt.Assert(ok, "adding PCR and OPCR to a field with room succeeds")
+	// The value identity is composed from two facts so that no 42-bit multiply/divide query is
+	// needed per shape: (1) the bytes at the ISO positions are InsertPCR(value) (below) and the
+	// getters decode exactly those bytes; (2) ExtractPCR(InsertPCR(v)) == v for every v (the codec
+	// lemma of the root-package C04 harness, decided once).
+	g, err := af.PCR()
+	vrt.Assert(err == nil && g == gots.ExtractPCR(p[6:12]), "the PCR getter decodes bytes 6..11")
+	o, err := af.OPCR()
+	vrt.Assert(err == nil && o == gots.ExtractPCR(p[12:18]), "the OPCR getter decodes the 6 bytes after the PCR")
+	var w [12]byte
+	gots.InsertPCR(w[0:6], pcr)
+	gots.InsertPCR(w[6:12], opcr)
+	same := p[5] == orig[5]|0x18 && p[4] == orig[4]
+	for i := 0; i < 12; i++ {
+		if p[6+i] != w[i] {
+			same = false
+		}
+	}
+	vrt.Assert(same, "PCR occupies bytes 6..11 and the OPCR the 6 bytes after it, flags raised, length unchanged")
+	// what followed the (absent) clock fields now follows the OPCR
+	moved := true
+	for i := 6; i < m.end; i++ {
+		if p[i+12] != orig[i] {
+			moved = false
+		}
+	}
+	vrt.Assert(moved, "the other optional fields follow the OPCR unchanged")
+	// removing the PCR again keeps the OPCR value
+	vrt.Assert(af.SetHasPCR(false) == nil, "removing the PCR succeeds")
+	o, err = af.OPCR()
+	back := err == nil && o == gots.ExtractPCR(p[6:12]) && p[5] == orig[5]|0x08
+	for i := 0; i < 6; i++ {
+		if p[6+i] != w[6+i] {
+			back = false
+		}
+	}
+	vrt.Assert(back, "the OPCR survives removing the PCR (moved to bytes 6..11, same bytes)")
 	vrt.Reach("end")
 }
